@@ -369,6 +369,7 @@ struct Sim {
         if (op == OP_BRACKET || op == OP_JT_MUL) { s.op.ka = K_OWN; s.op.kb = K_OWN; }
         if (inf.nout) s.op.mask = (uint8_t)rng.below(1u << inf.nout);
         if (rng.chance(0.15) && (op == OP_INTERP_SLERP || op == OP_TM_PLUSEQ || op == OP_TM_MINUSEQ)) s.op.variant |= V_ALT;
+        if (op == OP_M_MOVE_ASSIGN && rng.chance(0.6)) { s.op.variant |= V_ALT; s.op.kb = K_MAP; }
         if (rng.chance(0.3) && op == OP_LOG && (vt->caps & (CAP_ASSO3 | CAP_BUNDLE))) s.op.variant |= V_SUB;
         ValKind vk = op_value_kind(op);
         if (inf.cls != C_MUT_E && inf.cls != C_MUT_T && rng.chance(0.4)) {
@@ -432,6 +433,7 @@ struct Sim {
     if (o.replay) { plan = *o.replay; vt = plan.groups.empty() ? nullptr : group_by_name(plan.groups[0].c_str()); }
     else generate();
     if (!vt) { res.status = "harness_error"; res.detail = "unknown group"; return; }
+    if (o.dry) { if (o.record) *o.record = plan; res.str["dry"] = "1"; return; }
     build_layout();
     make_states();
     apply_sets();
